@@ -803,4 +803,102 @@ extend p.Mid {
 }
 `},
 	},
+	{
+		// Type URL shapes of Any payloads. any.proto: the payload type is the LAST path segment of the
+		// type URL; the prefix is arbitrary (default type.googleapis.com, another host, a host with a
+		// path, a URL with a scheme, nothing at all). Every payload message is reachable ONLY through
+		// an Any value, each shape occurs directly, in a list, in a map value and next to a
+		// default-prefixed sibling, on message and on field options.
+		Name:       "any-urls",
+		Covers:     []string{"Any type URL: single-segment custom prefix", "Any type URL: prefix with a path", "Any type URL: scheme + host + path", "Any type URL: empty prefix", "Any directly as map value of an option message", "Any-typed field option", "Any payload with own field types"},
+		ExtraNames: []string{"google.protobuf.Any"},
+		Files: map[string]string{
+			"opt.proto": `syntax = "proto3";
+package opt;
+import "google/protobuf/any.proto";
+import "google/protobuf/descriptor.proto";
+extend google.protobuf.MessageOptions {
+  // L:opt.extra
+  google.protobuf.Any extra = 10101;
+  // L:opt.bag
+  Bag bag = 10102;
+}
+// L:opt.Bag
+message Bag {
+  repeated google.protobuf.Any list = 1;
+  map<string, google.protobuf.Any> by = 2;
+  google.protobuf.Any one = 3;
+}
+extend google.protobuf.FieldOptions {
+  // L:opt.fextra
+  google.protobuf.Any fextra = 10103;
+}
+`,
+			"pay.proto": `syntax = "proto3";
+package pay;
+// L:pay.A
+message A {
+  // L:pay.A.part
+  Part part = 1;
+}
+// L:pay.Part
+message Part {
+  int32 id = 1;
+}
+// L:pay.B
+message B {
+  string name = 1;
+}
+// L:pay.C
+message C {}
+// L:pay.D
+message D {}
+`,
+			"a.proto": `syntax = "proto3";
+package p;
+import "opt.proto";
+import "pay.proto";
+// L:p.Pathed
+message Pathed {
+  option (opt.extra) = {
+    type_url: "schemas.example.com/registry/v1/pay.A"
+    value: "\x0a\x02\x08\x2a"
+  };
+}
+// L:p.Schemed
+message Schemed {
+  option (opt.extra) = {
+    type_url: "https://example.com/schemas/pay.B"
+    value: "\x0a\x01\x62"
+  };
+}
+// L:p.Bare
+message Bare {
+  option (opt.extra) = { type_url: "/pay.C" };
+}
+// L:p.Single
+message Single {
+  option (opt.extra) = { type_url: "example.com/pay.D" };
+}
+// L:p.Listed
+message Listed {
+  option (opt.bag) = {
+    list: { [type.googleapis.com/pay.D]: {} }
+    list: { type_url: "schemas.example.com/registry/v1/pay.B" value: "\x0a\x01\x62" }
+  };
+}
+// L:p.Mapped
+message Mapped {
+  option (opt.bag) = {
+    by: { key: "k" value: { type_url: "schemas.example.com/registry/v1/pay.C" } }
+    one: { type_url: "http://localhost:8080/pay.D" }
+  };
+}
+// L:p.Fielded
+message Fielded {
+  // L:p.Fielded.f
+  int32 f = 1 [(opt.fextra) = { type_url: "a.example/b/c/d/pay.A" }];
+}
+`},
+	},
 }
